@@ -294,7 +294,7 @@ func c02Bases(seed int64, thorough bool) []stmt {
 func init() {
 	core.Register(&core.Check{
 		ID: "C02", Level: "exploration",
-		Rule:   "for each honest base proof (n in 1..3 openings over mixed indices; 8 bases quick, 32 thorough): EVERY single-component perturbation of a fixed menu — C_i in {+G,-,identity,C_j,2x}, z_i in {+-1,0,255}, y_i in {+1,0,-,y_j}, D, every L_j/R_j (+G everywhere; -,identity,2x,swap on selected rounds, all rounds thorough), a in {+1,0,-}, every transposition/rotation, drop/duplicate an opening, label changes, splices with a second honest proof, arbitrary valid elements — plus representation-only changes of every group element, all shape errors (len Cs,ys,zs in {0,1,2}^3; len L,R in {0,7,8,9}^2), and the same menu on ipa.CheckIPAProof; the implementation's decision is compared with the reference verifier's on exactly the same tuple; non-trivial = every perturbed or re-represented tuple",
+		Rule:   "for each honest base proof (n in 1..3 openings over mixed indices; 8 bases quick, 32 thorough): EVERY single-component perturbation of a fixed menu — C_i in {+G,-,identity,C_j,2x}, z_i in {+-1,0,255}, y_i in {+1,0,-,y_j}, D, every L_j/R_j (+G everywhere; -,identity,2x,swap on selected rounds, all rounds thorough), a in {+1,0,-}, every transposition/rotation, drop/duplicate an opening, label changes, splices with a second honest proof, arbitrary valid elements — plus representation-only changes of every group element, all shape errors (len Cs,ys,zs in {0,1,2}^3; len L,R in {0,7,8,9}^2), the same menu on ipa.CheckIPAProof, proofs forged through the prover API with polynomials that do not match the commitments, a 1025-opening statement with late/compensating false claims, and the challenge powers themselves; the implementation's decision is compared with the reference verifier's on exactly the same tuple; non-trivial = every perturbed or re-represented tuple",
 		Assume: []string{"agreement with the specification's verification equation is checked, not cryptographic soundness", "tuples contain valid group elements only (the all-zero pseudo-point is exercised in C07)", "the reference verifier is bound to the pinned IPA/multiproof vectors"},
 		Units:  c02Units,
 	})
